@@ -60,7 +60,7 @@ func c18Specs() []distSpec {
 		out = append(out, distSpec{"RandU", fmt.Sprintf("[%g,%g)", p[0], p[1]), false, p[0], p[1], func(s []int) (tensor.Tensor, error) { return tensor.RandU(s, p[0], p[1], T) }, true, 0})
 	}
 	out = append(out, distSpec{"RandU(untracked conf)", "[0,1)", false, 0, 1, func(s []int) (tensor.Tensor, error) { return tensor.RandU(s, 0, 1, nil) }, false, 0})
-	for _, p := range [][2]float64{{0, 1}, {5, 0.1}, {-2, 3}, {100, 25}, {0, 1e200}, {0, 1e-180}} {
+	for _, p := range [][2]float64{{0, 1}, {5, 0.1}, {-2, 3}, {100, 25}, {0, 1e200}, {0, 1e-180}, {3, 1}, {-2, 1}, {1, 1}, {1, 2}} {
 		p := p
 		out = append(out, distSpec{"RandN", fmt.Sprintf("mean %g sigma %g", p[0], p[1]), true, p[0], p[1], func(s []int) (tensor.Tensor, error) { return tensor.RandN(s, p[0], p[1], T) }, true, 0})
 	}
@@ -68,7 +68,7 @@ func c18Specs() []distSpec {
 	// an initializer must keep what it was configured with, not a reference to the caller's struct
 	u0 := mustInit(initializers.NewUniform(nil))
 	out = append(out, distSpec{"Uniform", "nil config", false, -0.05, 0.05, u0.Init, true, 0})
-	for _, p := range [][2]float64{{-1, 4}, {0.25, 0.75}, {-7, -6.5}, {0, 1}, {-2, 0}, {0, 1e-3}, {-0.05, 0.5}, {-1e300, 1e300}, {0, 1e-300}, {1000.00007, 1000.00017}, {-65536.5, -65536.25}} {
+	for _, p := range [][2]float64{{-1, 4}, {0.25, 0.75}, {-7, -6.5}, {0, 1}, {-2, 0}, {0, 1e-3}, {-0.05, 0.5}, {-1e300, 1e300}, {0, 1e-300}, {1000.00007, 1000.00017}, {-65536.5, -65536.25}, {1, 2}, {-1, 1}, {-0.5, 0.5}, {0, 2}} {
 		uc := &initializers.UniformConfig{Lower: p[0], Upper: p[1]}
 		u := mustInit(initializers.NewUniform(uc))
 		uc.Lower, uc.Upper = 100, 200
@@ -76,7 +76,7 @@ func c18Specs() []distSpec {
 	}
 	n0 := mustInit(initializers.NewNormal(nil))
 	out = append(out, distSpec{"Normal", "nil config", true, 0, 0.05, n0.Init, true, 0})
-	for _, p := range [][2]float64{{1, 2}, {-3, 0.5}, {0, 10}, {0, 0.05}, {2, 0.05}, {0, 1}, {0, 1e-170}, {0, 1e160}, {0, 1e-200}, {1e150, 1e150}, {2048.5, 1e-5}, {-300, 1e-6}} {
+	for _, p := range [][2]float64{{1, 2}, {-3, 0.5}, {0, 10}, {0, 0.05}, {2, 0.05}, {0, 1}, {0, 1e-170}, {0, 1e160}, {0, 1e-200}, {1e150, 1e150}, {2048.5, 1e-5}, {-300, 1e-6}, {10, 1}, {-0.05, 1}, {1, 1}, {0.05, 0.05}} {
 		nc := &initializers.NormalConfig{Mean: p[0], StdDev: p[1]}
 		n := mustInit(initializers.NewNormal(nc))
 		nc.Mean, nc.StdDev = -50, 7
@@ -510,7 +510,13 @@ func c18Full(k *fw.K) {
 	for _, f := range []struct {
 		in   *initializers.Full
 		want float64
-	}{{initializers.NewFull(nil), 0}, {f1, -3.5}, {f2, 1e10}} {
+	}{{initializers.NewFull(nil), 0}, {f1, -3.5}, {f2, 1e10},
+		// constants that agree in their leading digits (or differ only far behind the point), on the same shapes right after one another
+		{initializers.NewFull(&initializers.FullConfig{Value: 1e-7}), 1e-7}, {initializers.NewFull(&initializers.FullConfig{Value: 0.2500004}), 0.2500004},
+		{initializers.NewFull(&initializers.FullConfig{Value: 0.25}), 0.25}, {initializers.NewFull(&initializers.FullConfig{Value: 0.25000000000000006}), 0.25000000000000006},
+		{initializers.NewFull(&initializers.FullConfig{Value: -1e-300}), -1e-300}, {initializers.NewFull(&initializers.FullConfig{Value: 1e10 + 1e-5}), 1e10 + 1e-5},
+		{initializers.NewFull(&initializers.FullConfig{Value: math.Copysign(0, -1)}), math.Copysign(0, -1)}, {initializers.NewFull(&initializers.FullConfig{Value: 5e-324}), 5e-324},
+		{initializers.NewFull(&initializers.FullConfig{Value: 123456789.125}), 123456789.125}, {initializers.NewFull(&initializers.FullConfig{Value: 123456789.25}), 123456789.25}} {
 		for _, s := range c18Shapes {
 			t, err := f.in.Init(ref.CopyInts(s))
 			if err != nil {
